@@ -123,6 +123,7 @@ TRet ==
     /\ ResMatches(Ev.res, result)
     /\ \A s \in Sinks : Ev.sinks[s] = sinkLog[s]
     /\ (cmd.name = "query" /\ result = ROk) => Ev.reply = QueryReply
+    /\ (cmd.name = "srcquery" /\ result = ROk) => Ev.replies = Replies("drv")
     /\ Keep
 
 TEnd ==
